@@ -59,7 +59,9 @@ def type_holds(td, ty, cap, args):
     has = cap in CAPS[args[pname]]
     if k == "PhG":
         return True
-    if k == "OptG" and cap == "Default":
+    if k in ("OptG", "NestG", "VecG") and cap == "Default":
+        return True
+    if k == "RefG" and cap in ("Clone", "Copy"):
         return True
     return has
 
